@@ -33,7 +33,7 @@ pub fn digest_line(seed: u64, i: u64) -> String {
         audio.recipe = format!("ramp_{}_noise", if up { "up" } else { "down" });
     }
     let audio = Arc::new(audio);
-    let mut cfg = gen::gen_config(&mut rng, &ConfigOpts::default());
+    let mut cfg = gen::gen_config(&mut rng, &ConfigOpts { no_experimental: true, ..ConfigOpts::default() });
     cfg.multithread = i % 2 == 0;
     cfg.block_size = block;
     if i % 7 == 0 {
